@@ -1,3 +1,190 @@
-/- Property theorems for C03 (stub: not built yet). -/
+/-
+C03  Forecasts are indexed by exactly the requested horizon from the true cutoff.
+Theorems about the forecaster state machine SkVerif/Model/Forecaster.lean, for ANY `Core`
+(concrete forecaster) unless stated otherwise.  Only theorems + non-vacuity examples here.
+-/
+import SkVerif.Lemmas.Forecaster
+import SkVerif.Lemmas.ForecasterShift
 namespace SkVerif.C03
+open SkVerif SkVerif.Fc
+
+/-- a valid out-of-sample relative horizon: strictly increasing, non-empty, all steps > 0 -/
+structure OosSteps (steps : List Int) : Prop where
+  sorted : steps.Pairwise (· < ·)
+  nonempty : steps ≠ []
+  pos : ∀ h ∈ steps, 0 < h
+
+/-- relative horizon: whenever `predict` returns a forecast, it is labelled cutoff + step -/
+theorem predict_index_relative (core : Core) (s : FState) (c : Int) (steps : List Int)
+    (hfit : s.fitted = true) (hc : s.cutoff = some c) (hv : OosSteps steps) (out : Series)
+    (h : (predict core .optional s (some (steps, true))).2 = .series out) :
+    out.labels = steps.map (c + ·) := by
+  obtain ⟨fitted, y0, cutoff, fh0, wlen⟩ := s
+  simp only at hfit hc
+  subst hfit; subst hc
+  unfold predict at h
+  simp only [ Bool.not_true, Bool.false_eq_true, ↓reduceIte, fhObjOf,
+    Lem.checkFhArg_sorted steps true hv.sorted hv.nonempty, Except.map, setFh, predictStored] at h
+  rw [Lem.predictAt_oos core _ c ⟨steps, true⟩ (by simpa using hv.pos)] at h
+  simp only [↓reduceIte] at h
+  cases hfc : fixedCutoff core ⟨true, y0, some c, some ⟨steps, true⟩, wlen⟩ c steps with
+  | error e => rw [hfc] at h; simp [outOf] at h
+  | ok o =>
+    rw [hfc] at h; simp only [outOf, Out.series.injEq] at h; subst h
+    exact (Lem.fixedCutoff_labels core _ c steps o hfc).1
+
+/-- absolute horizon: the forecast carries exactly the requested time points -/
+theorem predict_index_absolute (core : Core) (s : FState) (c : Int) (labels : List Int)
+    (hfit : s.fitted = true) (hc : s.cutoff = some c)
+    (hs : labels.Pairwise (· < ·)) (hne : labels ≠ []) (hafter : ∀ l ∈ labels, c < l) (out : Series)
+    (h : (predict core .optional s (some (labels, false))).2 = .series out) :
+    out.labels = labels := by
+  obtain ⟨fitted, y0, cutoff, fh0, wlen⟩ := s
+  simp only at hfit hc
+  subst hfit; subst hc
+  unfold predict at h
+  simp only [ Bool.not_true, Bool.false_eq_true, ↓reduceIte, fhObjOf,
+    Lem.checkFhArg_sorted labels false hs hne, Except.map, setFh, predictStored] at h
+  have hpos : ∀ v ∈ (if (⟨labels, false⟩ : FH.FH).rel then (⟨labels, false⟩ : FH.FH).vals
+      else (⟨labels, false⟩ : FH.FH).vals.map (· - c)), 0 < v := by
+    simp only [Bool.false_eq_true, ↓reduceIte, List.mem_map]
+    rintro v ⟨l, hl, rfl⟩; have := hafter l hl; omega
+  rw [Lem.predictAt_oos core _ c ⟨labels, false⟩ hpos] at h
+  simp only [Bool.false_eq_true, ↓reduceIte] at h
+  cases hfc : fixedCutoff core ⟨true, y0, some c, some ⟨labels, false⟩, wlen⟩ c (labels.map (· - c)) with
+  | error e => rw [hfc] at h; simp [outOf] at h
+  | ok o =>
+    rw [hfc] at h; simp only [outOf, Out.series.injEq] at h; subst h
+    rw [(Lem.fixedCutoff_labels core _ c _ o hfc).1, List.map_map]
+    have : ((fun x => c + x) ∘ fun x => x - c) = id := by funext x; simp
+    rw [this, List.map_id]
+
+/-- one value per requested step -/
+theorem predict_length (core : Core) (s : FState) (c : Int) (steps : List Int)
+    (hfit : s.fitted = true) (hc : s.cutoff = some c) (hv : OosSteps steps) (out : Series)
+    (h : (predict core .optional s (some (steps, true))).2 = .series out) :
+    out.length = steps.length := by
+  have := predict_index_relative core s c steps hfit hc hv out h
+  have h2 := congrArg List.length this
+  simpa [Series.labels] using h2
+
+/-- in increasing time order -/
+theorem predict_increasing (core : Core) (s : FState) (c : Int) (steps : List Int)
+    (hfit : s.fitted = true) (hc : s.cutoff = some c) (hv : OosSteps steps) (out : Series)
+    (h : (predict core .optional s (some (steps, true))).2 = .series out) :
+    out.labels.Pairwise (· < ·) := by
+  rw [predict_index_relative core s c steps hfit hc hv out h, List.pairwise_map]
+  exact hv.sorted.imp (by intro a b hab; omega)
+
+/-- finite for finite data: the modelled cores return a number for every step whenever the last
+window is non-empty and holds no missing value -/
+theorem predict_finite (win : List ORat) (steps : List Int) (w : Int) (hne : win ≠ [])
+    (hfin : ∀ v ∈ win, v.isSome = true) :
+    (∀ vals, coreLast.plw w win steps = .ok vals → ∀ v ∈ vals, v.isSome = true) ∧
+    (∀ wl vals, (coreMean wl).plw w win steps = .ok vals → ∀ v ∈ vals, v.isSome = true) ∧
+    (∀ k vals, (coreProbe k).plw w win steps = .ok vals → ∀ v ∈ vals, v.isSome = true) := by
+  obtain ⟨a, l, rfl⟩ : ∃ a l, win = a :: l := by
+    cases win with | nil => exact absurd rfl hne | cons a l => exact ⟨a, l, rfl⟩
+  have ha : a.isSome = true := hfin a (by simp)
+  have hnotall : allNaN (a :: l) = false := by
+    simp only [allNaN, List.all_cons, Bool.and_eq_false_iff]; left
+    cases a with | none => simp at ha | some x => simp
+  have hcount : countSome (a :: l) ≠ 0 := by
+    simp only [countSome, List.filter_cons, ha, ↓reduceIte, List.length_cons]; omega
+  refine ⟨?_, ?_, ?_⟩
+  · intro vals h v hv
+    simp only [coreLast, hnotall, List.isEmpty_cons, Bool.or_self, Bool.false_eq_true, ↓reduceIte,
+      Except.ok.injEq] at h
+    subst h
+    obtain ⟨_, _, rfl⟩ := List.mem_map.mp hv
+    have hl : (a :: l).getLast? = some ((a :: l).getLast (by simp)) := List.getLast?_eq_some_getLast _
+    rw [hl]; simp only [Option.getD_some]
+    exact hfin _ (List.getLast_mem _)
+  · intro wl vals h v hv
+    simp only [coreMean, hnotall, List.isEmpty_cons, Bool.or_self, Bool.false_eq_true, ↓reduceIte,
+      Except.ok.injEq] at h
+    subst h
+    obtain ⟨_, _, rfl⟩ := List.mem_map.mp hv
+    simp [nanmean, hcount]
+  · intro k vals h v hv
+    simp only [coreProbe, Except.ok.injEq] at h
+    subst h
+    obtain ⟨_, _, rfl⟩ := List.mem_map.mp hv
+    rfl
+
+/-- after a successful fit the cutoff is the last time point of the training series -/
+theorem cutoff_after_fit (core : Core) (mode : FhMode) (s : FState) (y : Series) (fh : Option FhArg)
+    (h : (fit core mode s y fh).2 = .done) :
+    (fit core mode s y fh).1.cutoff = y.lastLabel? ∧ (fit core mode s y fh).1.fitted = true ∧
+    (fit core mode s y fh).1.y = y :=
+  Lem.fit_done core mode s y fh h
+
+/-- after an update (without refitting) the cutoff is the last time point of the batch -/
+theorem cutoff_after_update (core : Core) (mode : FhMode) (s : FState) (y : Series) (o : Obs)
+    (hfit : s.fitted = true) (hlast : y.getLast? = some o) :
+    (update core mode s y false).1.cutoff = some o.1 ∧ (update core mode s y false).2 = .done := by
+  simp [update, hfit, hlast]
+
+/-- an empty batch changes nothing -/
+theorem cutoff_after_update_empty (core : Core) (mode : FhMode) (s : FState) (hfit : s.fitted = true) :
+    update core mode s [] false = (s, .done) := by
+  simp [update, hfit]
+
+/-- with refitting, and data arriving in time order, the cutoff is again the batch's last time
+point (the refit re-reads it from the end of the merged series) -/
+theorem cutoff_after_refit_update (core : Core) (mode : FhMode) (s : FState) (y : Series) (o : Obs)
+    (hfit : s.fitted = true) (hlast : y.getLast? = some o)
+    (hsorted : y.Pairwise (fun a b => a.1 < b.1)) (hold : s.y.Pairwise (fun a b => a.1 < b.1))
+    (horder : ∀ p ∈ s.y, p.1 ≤ o.1)
+    (h : (update core mode s y true).2 = .done) :
+    (update core mode s y true).1.cutoff = some o.1 :=
+  Lem.update_refit_cutoff core mode s y o hfit hlast hsorted hold horder h
+
+/-- update_predict_single: forecasts are labelled from the batch's last time point -/
+theorem update_predict_single_index (core : Core) (s : FState) (y : Series) (o : Obs) (steps : List Int)
+    (hfit : s.fitted = true) (hlast : y.getLast? = some o) (hv : OosSteps steps) (out : Series)
+    (h : (updatePredictSingle core .optional s y (some (steps, true)) false).2 = .series out) :
+    out.labels = steps.map (o.1 + ·) := by
+  obtain ⟨fitted, y0, cutoff, fh0, wlen⟩ := s
+  simp only at hfit
+  subst hfit
+  unfold updatePredictSingle at h
+  simp only [ Bool.not_true, Bool.false_eq_true, ↓reduceIte, fhObjOf, updateThenPredict,
+    Lem.checkFhArg_sorted steps true hv.sorted hv.nonempty, Except.map, setFh, update, hlast] at h
+  rw [Lem.predictAt_oos core _ o.1 ⟨steps, true⟩ (by simpa using hv.pos)] at h
+  simp only [↓reduceIte] at h
+  cases hfc : fixedCutoff core ⟨true, Series.combineFirst y y0, some o.1, some ⟨steps, true⟩, wlen⟩ o.1 steps with
+  | error e => rw [hfc] at h; simp [outOf] at h
+  | ok r =>
+    rw [hfc] at h; simp only [outOf, Out.series.injEq] at h; subst h
+    exact (Lem.fixedCutoff_labels core _ o.1 steps r hfc).1
+
+/-- shifting every time label of a history (training series, update batches, absolute horizons) by
+`k` shifts every label in every output and in the state by `k` and changes no value: one step -/
+theorem shift_equivariance_step (core : Core) (k : Int) (s : FState) (op : Op) :
+    step core .optional (Lem.shiftState k s) (Lem.shiftOp k op) =
+      (Lem.shiftState k (step core .optional s op).1, Lem.shiftOut k (step core .optional s op).2) :=
+  Lem.step_shift core k s op
+
+/-- … and whole histories: for every forecaster (core) with the optional-horizon mixin, every
+history of fit / predict / update / update_predict / update_predict_single and every shift `k`.
+(For the required-horizon mixin the real check compares horizon VALUES only, so a relative and an
+absolute horizon with equal numbers are confused and equivariance fails there - see C20.) -/
+theorem shift_equivariance (core : Core) (k : Int) (s : FState) (ops : List Op) :
+    run core .optional (Lem.shiftState k s) (ops.map (Lem.shiftOp k)) =
+      (Lem.shiftState k (run core .optional s ops).1, (run core .optional s ops).2.map (Lem.shiftOut k)) := by
+  induction ops generalizing s with
+  | nil => simp [run]
+  | cons op ops ih =>
+    simp only [List.map_cons, run]
+    rw [shift_equivariance_step, ih]
+
+-- non-vacuity
+example : OosSteps [1, 3] := ⟨by decide, by decide, by decide⟩
+example : (predict coreLast .optional ⟨true, [(0, some 1), (1, some 2)], some 1, none, 1⟩ (some ([1, 2], true))).2 =
+    .series [(2, some 2), (3, some 2)] := by
+  simp [predict, fhObjOf, checkFhArg, FH.checkFh, FH.mk, FH.checkValues, sortInts, isortBy, insertBy, setFh,
+    predictStored, predictAt, fixedCutoff, Series.locSlice, Series.values, coreLast, allNaN, outOf, Except.map,
+    bind, Except.bind, pure, Except.pure]
+
 end SkVerif.C03
